@@ -22,6 +22,10 @@ import time
 
 VERIF = os.path.dirname(os.path.dirname(os.path.abspath(__file__)))
 REPO = os.environ.get('KFAC_REPO', '/repo')
+# regression sweeps against scratch trees (tools/reseed_all.sh) write their evidence / replays elsewhere: VERIF_OUT_DIR=<dir>
+_OUT = os.environ.get('VERIF_OUT_DIR')
+OUT_EVIDENCE = os.path.join(_OUT or VERIF, 'evidence')
+OUT_REPLAYS = os.path.join(_OUT or VERIF, 'replays')
 COQ = os.path.join(VERIF, 'coq')
 OCAML = os.path.join(VERIF, 'ocaml')
 DRIVER = os.path.join(OCAML, 'driver')
@@ -284,8 +288,8 @@ def finish(pid: str, tier: str, seed: int, t0: float, cov: Coverage | None,
            correspondences: list[str], trusted: list[str],
            build_error: BuildError | None = None, notes: str = '') -> int:
     """Write evidence, print VIOLATION / KNOWN-FINDING lines, return exit code."""
-    os.makedirs(os.path.join(VERIF, 'evidence'), exist_ok=True)
-    os.makedirs(os.path.join(VERIF, 'replays'), exist_ok=True)
+    os.makedirs(OUT_EVIDENCE, exist_ok=True)
+    os.makedirs(OUT_REPLAYS, exist_ok=True)
     known = [k for k in load_known() if k['property'] == pid]
     exit_code = 0
     violations = 0
@@ -294,7 +298,7 @@ def finish(pid: str, tier: str, seed: int, t0: float, cov: Coverage | None,
 
     if build_error is not None:
         n_replay += 1
-        path = os.path.join(VERIF, 'replays', f'{pid}-{tier}-build.json')
+        path = os.path.join(OUT_REPLAYS, f'{pid}-{tier}-build.json')
         json.dump({
             'property': pid, 'tier': tier, 'seed': seed,
             'broken': build_error.what, 'log': build_error.log,
@@ -321,7 +325,7 @@ def finish(pid: str, tier: str, seed: int, t0: float, cov: Coverage | None,
         if n_replay >= 5:
             continue
         n_replay += 1
-        path = os.path.join(VERIF, 'replays', f'{pid}-{tier}-{n_replay}.json')
+        path = os.path.join(OUT_REPLAYS, f'{pid}-{tier}-{n_replay}.json')
         json.dump({
             'property': pid, 'tier': tier, 'seed': seed, 'what': f.what,
             'case': f.case, 'model_predicted': f.model, 'implementation_did': f.impl,
@@ -376,7 +380,7 @@ def finish(pid: str, tier: str, seed: int, t0: float, cov: Coverage | None,
         'violations': violations,
         'known_findings_printed': sorted(printed_known),
     }
-    with open(os.path.join(VERIF, 'evidence', f'{pid}.json'), 'w') as fh:
+    with open(os.path.join(OUT_EVIDENCE, f'{pid}.json'), 'w') as fh:
         json.dump(ev, fh, indent=1, default=str)
     if exit_code == 0:
         ne = cov.evaluations if cov else 0
